@@ -315,7 +315,7 @@ func fill(t *rapid.T, rv reflect.Value, depth int) {
 			}
 		}
 	case reflect.Interface:
-		switch sim.Intn(t, 6, "any") {
+		switch sim.Intn(t, 9, "any") {
 		case 0:
 		case 1:
 			rv.Set(reflect.ValueOf(sim.Bool(t, "b")))
@@ -327,6 +327,17 @@ func fill(t *rapid.T, rv reflect.Value, depth int) {
 			u := &za.Uniq{}
 			fill(t, reflect.ValueOf(u).Elem(), 2)
 			rv.Set(reflect.ValueOf(u))
+		case 6:
+			// a generic map that holds a value of a registered type (named by its create key in the decomposition)
+			u := &za.Uniq{}
+			fill(t, reflect.ValueOf(u).Elem(), 2)
+			rv.Set(reflect.ValueOf(map[string]any{"k": 1.5, "in": u, "plain": map[string]any{"a": "b"}}))
+		case 7:
+			u := &za.Uniq{}
+			fill(t, reflect.ValueOf(u).Elem(), 2)
+			rv.Set(reflect.ValueOf([]any{u, "s", map[string]any{"deep": u}}))
+		case 8:
+			rv.Set(reflect.ValueOf(map[string]any{"a": "b", "n": nil, "l": []any{true, 2.5}}))
 		default:
 			rv.Set(reflect.ValueOf([]any{1.5, "s", true}))
 		}
@@ -415,6 +426,7 @@ type op16 struct {
 	StructOf bool
 	BigInts  int
 	Tags     bool // UseTags on the alt and sen routes (the oj route always writes with GoOptions)
+	Twice    bool // alt route: the same decomposition is recomposed twice (into two new targets); the second result is the judged one
 	ByPtr    bool // the value is handed to Decompose / Marshal / Bytes through a pointer (addressable) or by value
 }
 
@@ -434,7 +446,7 @@ func (o *op16) String() string {
 	case "wrong-shape":
 		return "Recompose(wrong shape) into " + typeLabel(o.Type)
 	}
-	return fmt.Sprintf("%s %s value=%s tags=%v", []string{"alt.Recompose(alt.Decompose(v))", "oj.Unmarshal(oj.Marshal(v))", "sen.Unmarshal(sen.Bytes(v))"}[o.Route], typeLabel(o.Type), derefAll(o.Value), o.Tags) + map[bool]string{true: " by pointer", false: ""}[o.ByPtr]
+	return fmt.Sprintf("%s %s value=%s tags=%v", []string{"alt.Recompose(alt.Decompose(v))", "oj.Unmarshal(oj.Marshal(v))", "sen.Unmarshal(sen.Bytes(v))"}[o.Route], typeLabel(o.Type), derefAll(o.Value), o.Tags) + map[bool]string{true: " by pointer", false: ""}[o.ByPtr] + map[bool]string{true: " (recomposed twice)", false: ""}[o.Twice]
 }
 
 func drawOp16(t *rapid.T) *op16 {
@@ -468,6 +480,9 @@ func drawOp16(t *rapid.T) *op16 {
 		bigIntMode = 0
 		o.Route = sim.Intn(t, 3, "route")
 		o.ByPtr = sim.Bool(t, "byptr")
+		if o.Route == routeAlt {
+			o.Twice = sim.Intn(t, 3, "twice") == 0
+		}
 		// a type whose json tags overlap other fields' names is only unambiguous when the tags are used throughout
 		o.Tags = sim.Bool(t, "usetags") || o.Type == reflect.TypeOf(za.Overlap{}) || o.Type == reflect.TypeOf(za.OverlapEmb{})
 	}
@@ -535,6 +550,18 @@ func (o *op16) run(r *alt.Recomposer) (res res16) {
 	switch o.Route {
 	case routeAlt:
 		d := alt.Decompose(v, &opt)
+		if o.Twice {
+			// recomposing does not use its input up: the same decomposition gives the same value a second time
+			first := reflect.New(o.Type)
+			if r == nil {
+				_, err = alt.Recompose(d, first.Interface())
+			} else {
+				_, err = r.Recompose(d, first.Interface())
+			}
+			if err != nil {
+				break
+			}
+		}
 		if r == nil {
 			_, err = alt.Recompose(d, target.Interface())
 		} else {
